@@ -678,7 +678,7 @@ pub fn run_check(ctx: &Ctx) -> Report {
     if let Some(h) = plain_run {
         out.merge(h.join().expect("inner run"));
     }
-    if !plain {
+    if !plain && std::env::var("NLV_NO_CLI").is_err() {
         cli_driver(&mut out, ctx);
     }
     out
